@@ -112,6 +112,32 @@ def run(tier):
             # location, which the model - it has no locations - does not reproduce; the multisets were compared above)
             mism += 1
             ck.violation("tie-broken:correspondence-order", "model and implementation list different codes/orders (model %s, real %s) though the verdict agrees" % (mm["model"], real), src)
+    # an illegal jump is rejected (E400/E420) also when something ELSE in the module is wrong: a constant or a structure
+    # that fails, before or after the function (the module is rejected either way; the diagnostics of the jump must
+    # not get lost behind those of the container)
+    faulty = ["const LIMIT: i32 = true;\n", "struct Dup\n{\n\tm: i32,\n\tm: i32,\n}\n", "const A: i32 = B;\nconst B: i32 = A;\n", "struct Self\n{\n\tinner: Self,\n}\n", "const N: usize = nowhere;\n",
+              "word8 Big\n{\n\tx: u64,\n}\n"]
+    frng = random.Random(ck.seed + 404)
+    rejected = [(cid, src) for cid, src in srcs if not cid.startswith("m") and impl.get(cid, ["?"])[0].startswith("err codes=")]
+    fsel = frng.sample(rejected, min(len(rejected), 300 if tier == "quick" else 6000))
+    fsrcs = []
+    for j, (cid, src) in enumerate(fsel):
+        fd = faulty[j % len(faulty)]
+        fsrcs.append(("f%s" % cid, (fd + src) if (j // len(faulty)) % 2 == 0 else (src + fd), cid))
+    fimpl = C.run_harness("front", [(a, b) for a, b, _ in fsrcs], ck.work + "/faulty")
+    LBL = {"400", "420"}
+    fbad = 0
+    for fcid, fsrc, cid in fsrcs:
+        f = fimpl.get(fcid, ["missing"])
+        if not f[0].startswith("err codes="):
+            fbad += 1; mism += 1
+            ck.violation("illegal-jump-lost:" + (C.failure_key(f[0]) if not f[0].startswith("ok") else "accepted"), "a body with an illegal jump next to a faulty constant/structure: " + f[0][:120], fsrc); continue
+        got = sorted(x for x in f[0][len("err codes="):].split(" ")[0].strip("[]").split(",") if x in LBL)
+        base = sorted(x for x in impl[cid][0][len("err codes="):].split(" ")[0].strip("[]").split(",") if x in LBL)
+        if got != base:
+            fbad += 1; mism += 1
+            ck.violation("illegal-jump-lost", "next to a faulty constant/structure the label diagnostics of the body are %s, alone they are %s" % (got, base), fsrc)
+    ck.log("illegal jumps next to faulty containers: %d programs, %d problems" % (len(fsrcs), fbad))
     # "forward jumps to unique labels are accepted": bodies that also declare and use variables between gotos and
     # labels (the stages that run after the label scoper see its output).  A program is accepted exactly when the
     # three specifications (labels: this property; variables: C05; syntax: C06) have nothing to report, and the
